@@ -204,6 +204,20 @@ def run_dist(case, R):
             R.check('C09.dist', bool((ev.min(-1) >= -64 * domain.EPS * np.abs(ev).max(-1)).all()), 'domain/ccsg/not-psd', f'complex Gaussian covariance eigenvalue {ev.min():.3e}', prop='C09')
     else:
         domain.check_model(R, m, opts, monitor='C09.dist', where=f'{fam} trainer result')
+    if fam == 'cacg':
+        # the model of a given class scatter with from_covariance's own default floor (0.0): eigenvalues in [0, 1] - the slightly negative
+        # eigenvalues eigh returns for a rank-deficient scatter are clipped (the density of such a model is not asked for here)
+        z = oracles_unit(np.asarray(y, dtype=np.complex128))
+        Sc = np.einsum('...nd,...nD->...dD', z, z.conj()) / max(1, z.shape[-2])
+        try:
+            mm = d.ComplexAngularCentralGaussian.from_covariance(Sc, covariance_norm='eigenvalue')
+            lam0 = np.asarray(mm.covariance_eigenvalues)
+            ok0 = bool(np.isfinite(lam0).all() and (lam0 >= 0).all() and (lam0 <= 1).all())
+            R.check('C09.dist', ok0, 'domain/cacg/default-floor-range', f'from_covariance with its default floor: eigenvalues {lam0.min():.3e} .. {lam0.max():.3e} outside [0, 1]', prop='C09')
+        except Exception as e:
+            if not instr.is_library_exception(e):
+                raise
+            R.count(f'from_covariance with the default floor raised {type(e).__name__}')
     if case['cls'] in ('zeros', 'dup', 'lowrank', 'short', 'short1') or N <= D or case['saliency'] in ('zeros', 'onehot'):
         R.mark_nontrivial('dist', fam, case['cls'], D, N, case['lead'], case['saliency'])
     R.sample(dict(lane='dist', fam=fam, cls=case['cls'], D=D, N=N, lead=case['lead'], saliency=case['saliency']))
